@@ -180,9 +180,42 @@ func (ps *pathState) Resolve(v ssa.Value) ssa.Value {
 				continue
 			}
 			return v
+		case *ssa.Field:
+			// a field of a struct literal that an inlined helper built and returned by value
+			// (`return overflowPage{next: …, data: …}, nil` … `p.data`)
+			if len(ps.Ret) > 0 {
+				if ld, ok := ps.Resolve(x.X).(*ssa.UnOp); ok && ld.Op.String() == "*" {
+					if a, ok := ld.X.(*ssa.Alloc); ok {
+						if fv, ok := structLitField(a, x.Field, ld); ok {
+							v = fv
+							continue
+						}
+					}
+				}
+			}
+			return v
+		case *ssa.Index:
+			// an element of a local array literal at an index that is a known number on this path
+			if len(ps.Vals) > 0 || len(ps.Stack) > 0 {
+				if k, ok := evalIntD(x.Index, ps, 20); ok {
+					if e, ok := literalElem(x.X, k); ok {
+						v = e
+						continue
+					}
+				}
+			}
+			return v
 		case *ssa.UnOp:
 			if x.Op.String() != "*" {
 				return v
+			}
+			if ia, isIA := x.X.(*ssa.IndexAddr); isIA && (len(ps.Vals) > 0 || len(ps.Stack) > 0) {
+				if k, ok := evalIntD(ia.Index, ps, 20); ok {
+					if e, ok := literalElem(ps.Resolve(ia.X), k); ok {
+						v = e
+						continue
+					}
+				}
 			}
 			if seen, ok := ps.Loaded[x]; ok {
 				v = seen
@@ -194,6 +227,22 @@ func (ps *pathState) Resolve(v ssa.Value) ssa.Value {
 					continue
 				}
 				return v
+			}
+			// a field of a local that holds the struct literal an inlined helper returned by value
+			// (`p, err := loadOverflow(db, n)` … `p.data`): the value the helper put there
+			if fa, isFA := x.X.(*ssa.FieldAddr); isFA && len(ps.Ret) > 0 {
+				if pa, isA := fa.X.(*ssa.Alloc); isA && onlyFieldReads(pa) {
+					if st := singleStore(pa); st != nil {
+						if ld, ok := ps.Resolve(st.Val).(*ssa.UnOp); ok && ld.Op.String() == "*" && ld != x {
+							if a, ok := ld.X.(*ssa.Alloc); ok {
+								if fv, ok := structLitField(a, fa.Field, ld); ok {
+									v = fv
+									continue
+								}
+							}
+						}
+					}
+				}
 			}
 			a, ok := x.X.(*ssa.Alloc)
 			if !ok {
@@ -409,4 +458,58 @@ func (ps *pathState) FieldConst(ptr ssa.Value, field string) (int64, bool) {
 		return 0, false
 	}
 	return evalInt(v, ps)
+}
+
+
+// structLitField: the value stored into field number `field` of the local struct a before it is loaded whole by ld,
+// when that field is stored exactly once, in ld's block and ahead of it (a composite literal).
+func structLitField(a *ssa.Alloc, field int, ld *ssa.UnOp) (ssa.Value, bool) {
+	var found *ssa.Store
+	for _, r := range *a.Referrers() {
+		fa, ok := r.(*ssa.FieldAddr)
+		if !ok || fa.Field != field {
+			continue
+		}
+		for _, r2 := range *fa.Referrers() {
+			st, ok := r2.(*ssa.Store)
+			if !ok || st.Addr != ssa.Value(fa) {
+				return nil, false // the field's address is used for something else
+			}
+			if found != nil {
+				return nil, false
+			}
+			found = st
+		}
+	}
+	if found == nil || found.Block() != ld.Block() {
+		return nil, false
+	}
+	for _, in := range ld.Block().Instrs {
+		if in == ssa.Instruction(found) {
+			return found.Val, true
+		}
+		if in == ssa.Instruction(ld) {
+			return nil, false
+		}
+	}
+	return nil, false
+}
+
+
+// onlyFieldReads: the fields of local struct a are only ever read through its field addresses (it is written whole).
+func onlyFieldReads(a *ssa.Alloc) bool {
+	for _, r := range *a.Referrers() {
+		fa, ok := r.(*ssa.FieldAddr)
+		if !ok {
+			continue
+		}
+		for _, r2 := range *fa.Referrers() {
+			switch r2.(type) {
+			case *ssa.UnOp, *ssa.DebugRef:
+			default:
+				return false
+			}
+		}
+	}
+	return true
 }
